@@ -38,7 +38,8 @@ VARIABLES
   cons,     \* sub-attachers consulted in this step, in order
   told,     \* the last __LeaveStreamsUnattached value issued to Tor (-1: none yet)
   cs,       \* circuit id -> "none" | "BUILDING" | "BUILT" | "GONE"
-  st,       \* stream -> [seen, kind, port, ans (pending deferred answer or "-"), dec (decisions sent), rep (errors reported), asked]
+  st,       \* stream -> [seen, kind, port, ans (pending deferred answer or "-"), dec (decisions sent), rep (errors reported), asked,
+            \*            ref (Tor refused the decision command: reported as an error, nothing further is sent)]
   via,      \* conn -> [st: "idle"|"waitaddr"|"reg"|"done"|"refused", circ, port]
   wire,     \* commands written in this step
   hold,     \* the SETCONF that installs the via-circuit attacher has not been answered yet
@@ -47,7 +48,7 @@ VARIABLES
 
 vars == <<att, ps, cons, told, cs, st, via, wire, hold, cq, steps>>
 
-S0 == [seen |-> FALSE, kind |-> "", port |-> 0, ans |-> "-", dec |-> <<>>, rep |-> 0, asked |-> 0, end |-> ""]
+S0 == [seen |-> FALSE, kind |-> "", port |-> 0, ans |-> "-", dec |-> <<>>, rep |-> 0, asked |-> 0, end |-> "", ref |-> 0]
 V0 == [st |-> "idle", circ |-> 0, port |-> 0]
 
 Init ==
@@ -73,10 +74,14 @@ Decide(s, a) ==
 ViaFor(p) == {k \in Conns : via[k].st = "reg" /\ via[k].port = p}
 
 \* Tor reports a stream we have not seen before
-NewStream(s, kind, p, a, mode) ==
+\* rf: Tor refuses the ATTACHSTREAM this step sends (the circuit went away inside Tor before its CIRC event reached us):
+\* the refusal is reported, and that is all - the stream got its one decision
+RefOK(rf, w) == rf \in BOOLEAN /\ (rf => (w # <<>> /\ ~hold))
+NewStream(s, kind, p, a, mode, rf) ==
   /\ UNCHANGED told
   /\ ~st[s].seen /\ kind \in {"normal", "exit", "resolve"} /\ p \in Ports
   /\ a \in Answers /\ mode \in Modes /\ att # "P"
+  /\ (rf => (att = "A" /\ kind # "exit" /\ mode # "def"))
   /\ IF att = "none" \/ kind = "exit"
      THEN /\ st' = [st EXCEPT ![s] = [S0 EXCEPT !.seen = TRUE, !.kind = kind, !.port = p]]
           /\ Out(<<>>) /\ UNCHANGED via
@@ -85,7 +90,9 @@ NewStream(s, kind, p, a, mode) ==
           THEN /\ st' = [st EXCEPT ![s] = [S0 EXCEPT !.seen = TRUE, !.kind = kind, !.port = p, !.ans = a, !.asked = 1]]
                /\ Out(<<>>) /\ UNCHANGED via
           ELSE LET d == Decide(s, a) IN
-               /\ st' = [st EXCEPT ![s] = [S0 EXCEPT !.seen = TRUE, !.kind = kind, !.port = p, !.dec = d.dec, !.rep = d.rep, !.asked = 1]]
+               /\ RefOK(rf, d.w)
+               /\ st' = [st EXCEPT ![s] = [S0 EXCEPT !.seen = TRUE, !.kind = kind, !.port = p, !.dec = d.dec, !.rep = d.rep, !.asked = 1,
+                                                   !.ref = IF rf THEN 1 ELSE 0]]
                /\ Out(d.w) /\ UNCHANGED via
      ELSE \* "V": matched by (local address, port); unrelated streams are left to Tor
           IF ViaFor(p) # {}
@@ -118,8 +125,8 @@ RemSub(x) ==
   /\ ps' = SelectSeq(ps, LAMBDA e : e.sub # x)
   /\ steps' = steps + 1 /\ cons' = <<>> /\ Out(<<>>) /\ UNCHANGED <<att, cs, st, via>>
 \* Tor reports a new stream while the PriorityAttacher is installed; sa = what each sub-attacher would answer
-NewStreamP(s, kind, p, sa) ==
-  /\ UNCHANGED told
+NewStreamP(s, kind, p, sa, rf) ==
+  /\ UNCHANGED told /\ (rf => kind # "exit")
   /\ att = "P" /\ ~st[s].seen /\ kind \in {"normal", "exit", "resolve"} /\ p \in Ports
   /\ sa \in [Subs -> SubAnswers]
   /\ IF kind = "exit"
@@ -128,17 +135,20 @@ NewStreamP(s, kind, p, sa) ==
      ELSE LET o == Ord(ps)
               w == Winner(o, sa)
               d == Decide(s, IF w = 0 THEN "none" ELSE sa[o[w].sub])
-          IN /\ st' = [st EXCEPT ![s] = [S0 EXCEPT !.seen = TRUE, !.kind = kind, !.port = p, !.dec = d.dec, !.rep = d.rep, !.asked = 1]]
+          IN /\ RefOK(rf, d.w)
+             /\ st' = [st EXCEPT ![s] = [S0 EXCEPT !.seen = TRUE, !.kind = kind, !.port = p, !.dec = d.dec, !.rep = d.rep, !.asked = 1,
+                                                 !.ref = IF rf THEN 1 ELSE 0]]
              /\ Out(d.w)
              /\ cons' = [i \in 1..(IF w = 0 THEN Len(o) ELSE w) |-> o[i].sub]
   /\ steps' = steps + 1 /\ UNCHANGED <<att, ps, cs, via>>
 
 \* the Deferred the scripted attacher returned fires
-Answer(s) ==
+Answer(s, rf) ==
   /\ UNCHANGED told
   /\ st[s].seen /\ st[s].ans # "-"
   /\ LET d == Decide(s, st[s].ans) IN
-       /\ st' = [st EXCEPT ![s].ans = "-", ![s].dec = d.dec, ![s].rep = d.rep]
+       /\ RefOK(rf, d.w)
+       /\ st' = [st EXCEPT ![s].ans = "-", ![s].dec = d.dec, ![s].rep = d.rep, ![s].ref = IF rf THEN 1 ELSE 0]
        /\ Out(d.w)
   /\ Tick /\ UNCHANGED <<att, cs, via>>
 
@@ -221,9 +231,9 @@ CircStep(c, to) ==
 
 Next ==
   /\ steps < MaxSteps
-  /\ \/ \E s \in Streams, kind \in {"normal", "exit", "resolve"}, p \in Ports, a \in Answers, mode \in Modes :
-          NewStream(s, kind, p, a, mode) /\ (att # "A" => a = "none" /\ mode = "imm")
-     \/ \E s \in Streams : Answer(s) \/ StreamFailed(s) \/ LateClosed(s)
+  /\ \/ \E s \in Streams, kind \in {"normal", "exit", "resolve"}, p \in Ports, a \in Answers, mode \in Modes, rf \in BOOLEAN :
+          NewStream(s, kind, p, a, mode, rf) /\ (att # "A" => a = "none" /\ mode = "imm")
+     \/ \E s \in Streams : (\E rf \in BOOLEAN : Answer(s, rf)) \/ StreamFailed(s) \/ LateClosed(s)
      \/ \E a \in {"A", "B", "P", "none"}, late \in BOOLEAN : SetAttacher(a, late)
      \/ \E k \in Conns, c \in Circs, late \in BOOLEAN : ViaConnect(k, c, late)
      \/ ConfAck
@@ -231,13 +241,14 @@ Next ==
      \/ \E c \in Circs, to \in {"BUILDING", "BUILT", "GONE"} : CircStep(c, to)
      \/ \E x \in Subs, pr \in Prios : AddSub(x, pr)
      \/ \E x \in Subs : RemSub(x)
-     \/ \E s \in Streams, kind \in {"normal", "exit", "resolve"}, p \in Ports, sa \in [Subs -> SubAnswers] : NewStreamP(s, kind, p, sa)
+     \/ \E s \in Streams, kind \in {"normal", "exit", "resolve"}, p \in Ports, sa \in [Subs -> SubAnswers], rf \in BOOLEAN : NewStreamP(s, kind, p, sa, rf)
 
 Spec == Init /\ [][Next]_vars
 
 ----------------------------------------------------------------------------
 \* C09: at most one decision per stream, and none without being asked
-OneDecision == \A s \in Streams : Len(st[s].dec) <= 1 /\ st[s].rep <= 1 /\ Len(st[s].dec) + st[s].rep <= st[s].asked
+OneDecision == \A s \in Streams : /\ Len(st[s].dec) <= 1 /\ st[s].rep <= 1 /\ Len(st[s].dec) + st[s].rep <= st[s].asked
+                                   /\ st[s].ref <= Len(st[s].dec)     \* (a refusal concerns the one decision that was sent)
 \* .exit streams and streams seen without an attacher get nothing
 NothingForExit == \A s \in Streams : (st[s].seen /\ st[s].kind = "exit") => st[s].dec = <<>> /\ st[s].asked = 0
 \* a decision names 0 ("let Tor choose") or a circuit that was BUILT when it was sent
